@@ -14,6 +14,10 @@ tie       : random HISTORIES on real objects: mixture / particle / profile queri
             models against the real routines; Blowout flag machine vs the real flags / get_oil calls
 real code : the property predicates themselves: arguments and physical parameters unchanged, repeated
             query bit-equal (mixed-phase: flash tolerance), updated Blowout == fresh Blowout
+variant   : the models carry the CODE VARIANT of the former defect sites (`aliased` for dbm_p.coefs, `revisit`
+            for Blowout.update_num_oil_elements, `Code` for the particle methods); detect_variants() replays the
+            Lean witnesses on the real code on every run, the driver is run with the detected variants, the
+            evidence records them and two obligations require the repaired variants (full statements proved)
 """
 import math
 import time
@@ -789,11 +793,11 @@ def run(ctx, lean_ok):
                'TamocV.Props.C19.blowout_refines_fresh is the one that applies to it', bool(VARIANT['revisit']),
                'q_type is not revisited: the witness of TamocV.Props.C19.not_blowout_refines_fresh reproduces on the real code')
     lines, owners = [], []
-    mixture_histories(ctx, r, ctx.n(60, 800))
-    particle_histories(ctx, r, ctx.n(45, 400), lines, owners)
-    profile_histories(ctx, r, ctx.n(40, 400), lines, owners)
-    coefs_cases(ctx, r, ctx.n(40, 400), lines, owners)
-    blowout_sequences(ctx, r, ctx.n(16 + 14, 16 + 150), lines, owners)
+    mixture_histories(ctx, r, ctx.n(60, 1500))
+    particle_histories(ctx, r, ctx.n(45, 800), lines, owners)
+    profile_histories(ctx, r, ctx.n(40, 800), lines, owners)
+    coefs_cases(ctx, r, ctx.n(40, 600), lines, owners)
+    blowout_sequences(ctx, r, ctx.n(16 + 14, 16 + 300), lines, owners)
     for k, (d, x, text) in sorted(ctx.notes_raise.items()):
         ctx.notes.append('C20 finding candidate key=raises:%s first: %s on %r inputs %r' % (k, text, d, x))
 
